@@ -337,6 +337,17 @@ def run_wait_procs_case(case, acc):
         if case.get("dups"):
             harness.rng_for("c15dups", len(given), case["timeout"]).shuffle(given)
             acc.count("wait_procs_with_repeated_mentions")
+        # some of the objects were already wait()ed for by the caller (successfully or not) before wait_procs() sees them
+        w.clock.advance(0)
+        prewaited = {}
+        for idx in case.get("prewait", []):
+            if idx < len(objs):
+                try:
+                    objs[idx].wait(0)
+                    prewaited.setdefault(objs[idx].pid, []).append(objs[idx])
+                    acc.count("wait_procs_object_already_waited")
+                except ps.TimeoutExpired:
+                    acc.count("wait_procs_object_already_timed_out")
         cb_calls = []
         cb = (lambda p: cb_calls.append(p)) if case.get("callback", True) else None
         w.clock.advance(0)
@@ -365,6 +376,11 @@ def run_wait_procs_case(case, acc):
                     viols.append(("alive_process_reported_gone", ctx + f" pid={pid}"))
                 if not hasattr(o, "returncode"):
                     viols.append(("gone_without_returncode", ctx + f" pid={pid}"))
+                elif pid in prewaited and not any(o is x for x in prewaited[pid]):
+                    # the exit status was consumed through another object for the same process: this one cannot know it
+                    if o.returncode is not None:
+                        viols.append(("wrong_returncode", ctx + f" pid={pid} got {o.returncode!r} on an object that never "
+                                      f"waited, after another object had collected the status"))
                 elif o.returncode != expected_value(pr["kind"], pr["status"]):
                     viols.append(("wrong_returncode", ctx + f" pid={pid} got {o.returncode!r}"))
                 if cb is not None and ncb != 1:
@@ -395,6 +411,8 @@ def wait_procs_cases(tier):
                 procs = [dict(pid=70 + i, kind=("child" if i % 2 == 0 else "nonchild"), exit_at=x, status=((i + 1) << 8) if i != 2 else 15)
                          for i, x in enumerate(times)]
                 out.append(dict(procs=procs, timeout=timeout, callback=True))
+                if n <= 3:
+                    out.append(dict(procs=procs, timeout=timeout, callback=True, prewait=[0, n - 1]))
                 if n <= 2:
                     for how in ("same", "equal"):
                         out.append(dict(procs=procs, timeout=timeout, callback=True, dups=[[0, how]]))
@@ -411,6 +429,8 @@ def gen_wait_procs_case(rng):
         procs.append(dict(pid=70 + i, kind=rng.choice(["child", "nonchild"]), exit_at=x,
                           status=rng.choice([rng.randrange(256) << 8, rng.randrange(1, 32)])))
     case = dict(procs=procs, timeout=timeout, callback=rng.random() < 0.8)
+    if rng.random() < 0.3:
+        case["prewait"] = sorted({rng.randrange(n) for _ in range(rng.randrange(1, 4))})
     if rng.random() < 0.3:
         case["dups"] = [[rng.randrange(n), rng.choice(["same", "equal"])] for _ in range(rng.randrange(1, 4))]
     return case
